@@ -486,7 +486,7 @@ Section ListInstance.
        fetch_list limit (src_list {| w_enc := EncCL d; w_sent := sent |}) = TooLarge) /\
     (forall (sent : list A) term, norm_limit limit < zlen sent ->
        fetch_list limit (src_list (chunked_l sent term)) = TooLarge).
-  Proof. exact (fetch_over_limit zlen ztake [] list_laws). Qed.
+  Proof. exact (fetch_over_limit zlen ztake []). Qed.
 
   Lemma l_negative : forall limit (s : src (list A)), limit < 0 -> fetch_list limit s = Streamed.
   Proof. exact (fetch_negative zlen ztake []). Qed.
